@@ -252,6 +252,29 @@ func RunC20(c *mc.Ctx) {
 		})
 	}
 
+	// ---- bloom: update mode P2PubkeyOnly and a transaction whose only output is bare multisig (the
+	// other script class that mode inserts outpoints for): pairs of 1-2 op programs over a 7-op alphabet
+	{
+		sp := []string{"Add:x", "MatchTxMS", "MatchTx", "MatchesOutPointMS", "Matches:x", "Reload", "IsLoaded"}
+		pp := programs(sp, 2)
+		var cp []*BloomConfig
+		for i := range pp {
+			for j := i; j < len(pp); j++ {
+				if c.Quick() && len(pp[i]) == 2 && len(pp[j]) == 2 {
+					continue
+				}
+				cp = append(cp, &BloomConfig{Geom: "8x2p", Progs: [][]string{pp[i], pp[j]}})
+			}
+		}
+		if onlyBig {
+			cp = nil
+		}
+		c.Space("bloom: update mode P2PubkeyOnly with pay-to-pubkey and bare-multisig transactions: pairs of programs over a 7-op alphabet", int64(len(cp)))
+		c.ParFor(int64(len(cp)), func(w *mc.W, i int64) {
+			exploreCase(c, w, c20Case{Kind: "bloom", Bloom: cp[i], Bound: bound2}, 200000)
+		})
+	}
+
 	// ---- bloom: a filter with EIGHT hash functions and 20..40-byte items (every item of the alphabet
 	// except "y"): all unordered pairs of 1-2 op programs over a 6-op sub-alphabet
 	{
